@@ -3,7 +3,9 @@ package props
 import (
 	"context"
 	"fmt"
+	"github.com/ThreeDotsLabs/watermill"
 	"runtime"
+	"strings"
 	"sync"
 	"time"
 
@@ -28,7 +30,9 @@ type c12Case struct {
 	CancelInWait int           // cancel it CancelAfter after the end of attempt k (0: never)
 	CancelAfter  time.Duration //
 	Class        string
-	CtxErr       bool // the handler's errors wrap context.DeadlineExceeded / context.Canceled (a call of its own timed out): errors like any other
+	SelfSettle   string // "ack" / "nack": the handler settles the message itself during its first attempt and fails all the same: Retry goes on
+	SliceErr     bool   // the handler's errors are of a type that == cannot compare (a list of validation errors); a Logger is configured
+	CtxErr       bool   // the handler's errors wrap context.DeadlineExceeded / context.Canceled (a call of its own timed out): errors like any other
 }
 
 func (cs c12Case) cfg() map[string]any {
@@ -80,6 +84,12 @@ func runC12(c *Ctx) error {
 	}
 	for _, fn := range []int{-1, 1, 2} {
 		cases = append(cases, c12Case{MaxRetries: 3, Initial: 2 * ms, MaxI: 10 * ms, MNum: 2, MDen: 1, RFNum: 0, RFDen: 1, FailN: fn, Class: "plain", CtxErr: true})
+	}
+	for _, fn := range []int{-1, 2} {
+		for _, ss := range []string{"ack", "nack"} {
+			cases = append(cases, c12Case{MaxRetries: 3, Initial: 2 * ms, MaxI: 10 * ms, MNum: 2, MDen: 1, RFNum: 0, RFDen: 1, FailN: fn, Class: "plain", SelfSettle: ss})
+		}
+		cases = append(cases, c12Case{MaxRetries: 3, Initial: 2 * ms, MaxI: 10 * ms, MNum: 2, MDen: 1, RFNum: 0, RFDen: 1, FailN: fn, Class: "plain", SliceErr: true})
 	}
 	nplain := len(cases)
 	// context ends while retries remain
@@ -233,6 +243,10 @@ func goid() uint64 {
 	return id
 }
 
+type c12SliceErr []string
+
+func (e c12SliceErr) Error() string { return strings.Join(e, "; ") }
+
 type c12CtxErr struct {
 	text  string
 	inner error
@@ -263,6 +277,11 @@ func c12RunOn(r *tr.Run, cs c12Case, sh *c12Shared, given *message.Message) {
 		k := n
 		mu.Unlock()
 		r.Emit("att_start", "n", k, "t", now())
+		if k == 1 && cs.SelfSettle == "ack" {
+			msg.Ack()
+		} else if k == 1 && cs.SelfSettle == "nack" {
+			msg.Nack()
+		}
 		if cs.CancelInAtt == k {
 			time.Sleep(cs.AttDur / 2)
 			doCancel()
@@ -283,6 +302,9 @@ func c12RunOn(r *tr.Run, cs c12Case, sh *c12Shared, given *message.Message) {
 			if cs.CtxErr {
 				err = c12CtxErr{errID, []error{context.DeadlineExceeded, context.Canceled}[k%2]}
 			}
+			if cs.SliceErr {
+				err = c12SliceErr{errID}
+			}
 			// failed attempts may carry messages too; they must never be reported as a success
 			outs = []*message.Message{message.NewMessage(fmt.Sprintf("x%d", k), nil)}
 		}
@@ -296,6 +318,9 @@ func c12RunOn(r *tr.Run, cs c12Case, sh *c12Shared, given *message.Message) {
 		MaxRetries: cs.MaxRetries, InitialInterval: cs.Initial, MaxInterval: cs.MaxI, Multiplier: float64(cs.MNum) / float64(cs.MDen),
 		MaxElapsedTime: cs.MaxElapsed, RandomizationFactor: float64(cs.RFNum) / float64(cs.RFDen),
 		OnRetryHook: func(k int, d time.Duration) { r.Emit("hook", "k", k, "wait", int64(d/time.Microsecond)) },
+	}
+	if cs.SliceErr {
+		rt.Logger = watermill.NopLogger{}
 	}
 	msg := given
 	if msg == nil {
